@@ -16,6 +16,7 @@ DECIDED += "; R9 accept parks on the listener's Notify only on the queue-empty e
 DECIDED += '; R10 every traversal of the hosts in Sim::step takes the due messages off the links (a SYN for a host whose software has returned is refused, not parked)'
 DECIDED += '; a partition destroys every message on the link, held ones included (shared C03-R3)'
 DECIDED += '; R11 a Config knob reaches the constructor parameter of its own name; the in-simulation and Sim-handle spellings of partition / repair reach the same operation (shared C03-R6); R4 also: ConnectGuard::drop releases on every path'
+DECIDED += '; a bounced host always starts on a fresh runtime (shared C04-R2)'
 ASSUMPTIONS = ["dropping a oneshot::Sender makes the receiver resolve with RecvError (tokio contract)"]
 
 DEQUE = "turmoil::host::ServerSocket::deque"
